@@ -56,7 +56,18 @@ func (s *swamp) PatchExpired(howMany int32, ops []msgpackpatch.Op, condition *ms
 	// expiration-time indexes are built before we try to select.
 	s.buildBeacon(s.expirationTimeBeaconASC, s.expirationTimeBeaconDESC, BeaconTypeExpirationTime)
 
-	selected, capReached := s.expirationTimeBeaconASC.SelectExpiredForPatchWithCap(int(howMany), selectionPredicate, capPredicate, int(capMax))
+	// The expiration index only holds records that carry an expiry, so the
+	// Cap pre-count inside SelectExpiredForPatchWithCap cannot see records
+	// that already match Cap.Filter but never expire. Count those here
+	// (they live in the key index) and hand the engine the remaining room.
+	effectiveCapMax := int(capMax)
+	if capPredicate != nil {
+		effectiveCapMax -= s.beaconKey.CountMatching(func(t treasure.Treasure) bool {
+			return t.GetExpirationTime() == 0 && capPredicate(t)
+		})
+	}
+
+	selected, capReached := s.expirationTimeBeaconASC.SelectExpiredForPatchWithCap(int(howMany), selectionPredicate, capPredicate, effectiveCapMax)
 	if len(selected) == 0 {
 		return nil, capReached, nil
 	}
